@@ -107,7 +107,8 @@ def _one(args):
         if bad:
             return {"id": mid, "target": target_ref, "status": "killed", "by": bad[0][0], "how": bad[0][1]}
         return {"id": mid, "target": target_ref, "status": "survived"}
-    except (EngineError, SpecDrift) as ex:
+    except (EngineError, SpecDrift, TypeError, AttributeError) as ex:
+        # TypeError/AttributeError: a spec lambda no longer fits the values the mutated code produces
         return {"id": mid, "target": target_ref, "status": "killed", "by": "engine: %s" % str(ex)[:200], "how": "undecided"}
     except Exception as ex:  # noqa
         return {"id": mid, "target": target_ref, "status": "error", "by": repr(ex)[:300]}
